@@ -804,7 +804,7 @@ def _e_message_layer(ctx):
     pops = []
     for n in walk_no_nested(cb.node):
         if isinstance(n, ast.Assign) and isinstance(n.targets[0], (ast.Tuple, ast.List)) and len(n.targets[0].elts) == 2 and isinstance(n.value, ast.Call) \
-                and isinstance(n.value.func, ast.Attribute) and n.value.func.attr in ("pop", "popleft") and (chain(n.value.func.value.value) if isinstance(n.value.func.value, ast.Subscript) else None) == "self._backlogs":
+                and isinstance(n.value.func, ast.Attribute) and n.value.func.attr in ("pop", "popleft") and any(n.value is x for k_, x in stores_to(cb.node, "self._backlogs", nested=False) if k_ in ("pop", "popleft")):
             pops.append(n)
     ctx.floor("backlog removals in _continue_backlog", len(pops), 1)
     for n in pops:
@@ -876,7 +876,12 @@ def _e_dispatch_error(ctx):
     cfg = cfg_of(fi)
     F = "self.incoming_requests"
     loops = [(n, _field_iter(n.iter, F)) for n in walk_no_nested(fi.node) if isinstance(n, ast.For) and _field_iter(n.iter, F) is not None]
-    ctx.floor("loops over incoming_requests in dispatch_error", len(loops), 1)
+    if not loops:
+        # no explicit loop (e.g. a comprehension): the shared obligations of C02.e decide the same facts
+        # (stoppers collected only for the reported remote's requests, every collected stopper invoked)
+        from . import c02
+        c02.e(ctx)
+        return
     for lp, (mode, copied) in loops:
         ctx.need(mode == "items", "dispatch_error iterates incoming_requests.%s(): outside the rule's vocabulary" % mode)
         names = {}
